@@ -197,42 +197,84 @@ def check_graph_tables(ctx: CheckContext, p: Program, r: Resolver, rule: str = "
     return consumed
 
 
+def _iter_sources(node: ast.AST):
+    """(iter expression, body nodes) of every for-loop and comprehension generator under node"""
+    for n in ast.walk(node):
+        if isinstance(n, ast.For):
+            yield n.iter, n
+        elif isinstance(n, (ast.ListComp, ast.SetComp, ast.GeneratorExp, ast.DictComp)):
+            for g in n.generators:
+                yield g.iter, n
+
+
+def _visits_all(r: Resolver, f: FuncInfo, entry: FuncInfo) -> Tuple[bool, bool, bool]:
+    zp = f.pos_params[0] if f.pos_params else None
+    it_t = it_s = rec = False
+    for it, owner in _iter_sources(f.node):
+        if isinstance(it, ast.Call) and isinstance(it.func, ast.Attribute) and it.func.attr in ("values", "items"):
+            base = it.func.value
+            if isinstance(base, ast.Attribute) and isinstance(base.value, ast.Name) and base.value.id == zp:
+                if base.attr == "targets":
+                    it_t = True
+                if base.attr == "subzones":
+                    it_s = True
+                    for c in ast.walk(owner):
+                        if isinstance(c, ast.Call) and isinstance(c.func, ast.Name) and c.func.id in (f.name, entry.name):
+                            rec = True
+    return it_t, it_s, rec
+
+
+def _traversal_function(r: Resolver, entry: FuncInfo) -> Tuple[Optional[FuncInfo], Tuple[bool, bool, bool]]:
+    """the function (entry itself or a helper of its module it calls) that walks targets and sub-zones recursively"""
+    cands = [entry]
+    for call, tg in r.calls_of(entry):
+        for t in tg:
+            if isinstance(t, FuncInfo) and t.module is entry.module and t not in cands:
+                cands.append(t)
+    best, bestv = None, (False, False, False)
+    for g in cands:
+        v = _visits_all(r, g, entry)
+        if sum(v) > sum(bestv):
+            best, bestv = g, v
+    return best, bestv
+
+
 def check_traversal(ctx: CheckContext, p: Program, r: Resolver, rule: str = "TRAV"):
-    ctx.rule(rule, "the record report and the graph-set builder visit the same set: both iterate all of zone.targets and recurse into all of "
-                   "zone.subzones.values(); a graph set is stored under the key it is titled with; add_target stores a record under its own name")
+    ctx.rule(rule, "the record report and the graph-set builder visit the same set: each (itself or through a helper of its module) iterates all of zone.targets "
+                   "and recurses into all of zone.subzones.values(); a graph set is stored under the key it is titled with; add_target stores a record under its own name")
     main = p.modules["OpenPinch.main"]
     gm = p.modules["OpenPinch.analysis.graph_data"]
     rep, gsd = main.funcs.get("_get_report"), gm.funcs.get("get_output_graph_data")
     if rep is None or gsd is None:
         raise AnalysisError("_get_report / get_output_graph_data not found")
+    walkers = {}
     for f in (rep, gsd):
-        zp = f.pos_params[0]
-        iter_targets = iter_subs = recurses = False
-        for n in body_nodes(f):
-            if isinstance(n, ast.For):
-                it = n.iter
-                if isinstance(it, ast.Call) and isinstance(it.func, ast.Attribute) and it.func.attr in ("values", "items"):
-                    base = it.func.value
-                    if isinstance(base, ast.Attribute) and isinstance(base.value, ast.Name) and base.value.id == zp:
-                        if base.attr == "targets":
-                            iter_targets = True
-                        if base.attr == "subzones":
-                            iter_subs = True
-                            for c in ast.walk(n):
-                                if isinstance(c, ast.Call) and isinstance(c.func, ast.Name) and c.func.id == f.name:
-                                    recurses = True
+        g, (iter_targets, iter_subs, recurses) = _traversal_function(r, f)
+        walkers[f] = g
         ok = iter_targets and iter_subs and recurses
         ctx.ob(rule, f"{f.qualname}:visits", f.loc, ok,
-               "" if ok else f"{f.name} does not visit every target of every zone (targets loop: {iter_targets}, sub-zone loop: {iter_subs}, recursion: {recurses})")
-        # no filtering condition inside the loops that skips records (an `if` without else guarding the append/store)
-    # key == title
-    for n in body_nodes(gsd):
-        if isinstance(n, ast.Assign) and len(n.targets) == 1 and isinstance(n.targets[0], ast.Subscript) and isinstance(n.value, ast.Call):
-            keyn = n.targets[0].slice
-            args = n.value.args
-            ok = isinstance(keyn, ast.Name) and len(args) >= 2 and isinstance(args[1], ast.Name) and args[1].id == keyn.id
-            ctx.ob(rule, f"{gsd.qualname}:key==title", f"{gsd.module.relpath}:{n.lineno}", ok,
+               "" if ok else f"{f.name} does not visit every target of every zone (targets iterated: {iter_targets}, sub-zones iterated: {iter_subs}, recursion: {recurses})")
+    # key == title, wherever the graph-set creator is called in the walker
+    w = walkers[gsd] or gsd
+    n_sites = 0
+    for node in body_nodes(w):
+        pairs = []
+        if isinstance(node, ast.Assign) and len(node.targets) == 1 and isinstance(node.targets[0], ast.Subscript) and isinstance(node.value, ast.Call):
+            pairs.append((node.targets[0].slice, node.value, node))
+        elif isinstance(node, ast.Tuple) and len(node.elts) == 2 and isinstance(node.elts[1], ast.Call):
+            pairs.append((node.elts[0], node.elts[1], node))
+        elif isinstance(node, ast.DictComp) and isinstance(node.value, ast.Call):
+            pairs.append((node.key, node.value, node))
+        for keyn, call, site in pairs:
+            tg = [t for t in r.resolve_call(w, call) if isinstance(t, FuncInfo) and t.module is gm]
+            if not tg or len(call.args) < 2:
+                continue
+            n_sites += 1
+            ok = isinstance(keyn, ast.Name) and isinstance(call.args[1], ast.Name) and call.args[1].id == keyn.id
+            ctx.ob(rule, f"{w.qualname}:key==title", f"{w.module.relpath}:{site.lineno}", ok,
                    "" if ok else "a graph set is stored under a key different from the name it is titled with")
+    if n_sites == 0:
+        raise AnalysisError(f"{w.loc}: the statement that stores a graph set under its key was not recognised")
     cgs = gm.funcs.get("_create_graph_set")
     if cgs is not None and len(cgs.pos_params) >= 2:
         title = cgs.pos_params[1]
